@@ -333,6 +333,10 @@ class Interp(LibMixin, CallMixin, StmtMixin, ExprMixin, InterpBase):
                 isnone, base = self._last_nullable
                 res = VNone if self.ctx.branch(isnone, "fresh result is None") else base
                 S_.result = res
+            # whatever the callee allocated (its result, the parts of its result) may be referred to by anything the
+            # callee could reach: these objects are not private to this path
+            for rid_ in range(old.next_id, min(self.st.next_id, old.next_id + 4096)):
+                self.st.escaped.add(rid_)
             # an object created by the callee exists from now on: what its invariant calls "already existing" is
             # everything allocated up to this point (not only what existed when the verified function was entered)
             try:
